@@ -55,7 +55,7 @@ def check(pid, tier, seed):
     ev_total, garbage_by_state, scen = 0, {}, 0
     for s in seeds:
         fin, fimpl, fmodel = [os.path.join(d, x) for x in ("conn_in.txt", "conn_impl.txt", "conn_model.txt")]
-        q = C.run([C.HARNESS, "connstep", "-seed", str(s), "-n", str(n), "-events", "30", "-fuzz", "-in", fin, "-impl", fimpl], cwd=d, timeout=3600)
+        q = C.run([C.HARNESS, "connstep", "-seed", str(s), "-n", str(n), "-events", "30", "-fuzz", "-in", fin, "-impl", fimpl], cwd=d, timeout=C.engine_timeout())
         if q.returncode != 0:
             found.append({"engine": "connstep -fuzz", "seed": s, "why": "the process died (panic outside a handler call?)", "detail": (q.stdout or "")[-3000:]})
             continue
@@ -89,7 +89,7 @@ def check(pid, tier, seed):
     # --- websocket frames
     wn = 400 if tier == "quick" else 4000
     fout, flog = os.path.join(d, "wsfuzz.txt"), os.path.join(d, "wsfuzz_log.txt")
-    q = C.run([C.HARNESS, "wsfuzz", "-seed", str(seed), "-n", str(wn), "-out", fout, "-log", flog], cwd=d, timeout=3600)
+    q = C.run([C.HARNESS, "wsfuzz", "-seed", str(seed), "-n", str(wn), "-out", fout, "-log", flog], cwd=d, timeout=C.engine_timeout())
     if q.returncode != 0:
         last = open(flog).read().splitlines()[-3:] if os.path.exists(flog) else []
         found.append({"engine": "wsfuzz", "seed": seed, "why": "the process died while reading frames", "last_inputs": last, "detail": (q.stdout or "")[-3000:]})
@@ -103,7 +103,7 @@ def check(pid, tier, seed):
     # --- mDNS callbacks
     mn = 20000 if tier == "quick" else 300000
     fout, flog = os.path.join(d, "mdnsfuzz.txt"), os.path.join(d, "mdnsfuzz_log.txt")
-    q = C.run([C.HARNESS, "mdnsfuzz", "-seed", str(seed), "-n", str(mn), "-out", fout, "-log", flog], cwd=d, timeout=3600)
+    q = C.run([C.HARNESS, "mdnsfuzz", "-seed", str(seed), "-n", str(mn), "-out", fout, "-log", flog], cwd=d, timeout=C.engine_timeout())
     if q.returncode != 0:
         last = open(flog, errors="replace").read().splitlines()[-2:] if os.path.exists(flog) else []
         found.append({"engine": "mdnsfuzz", "seed": seed, "why": "the process died in the TXT parser or resolver callback", "last_inputs": [x[:1000] for x in last], "detail": (q.stdout or "")[-3000:]})
